@@ -149,9 +149,9 @@ def gen_band(rng, tier, widen):
     return f_min, f_max, gb
 
 
-def gen_cells(rng, length, dense=False):
+def gen_cells(rng, length, dense=False, layout=None):
     cells = ['1'] * length
-    layout = rng.choice(['full', 'full', 'full', 'left', 'right', 'gap', 'both', 'gap'])
+    layout = layout or rng.choice(['full', 'full', 'full', 'left', 'right', 'gap', 'both', 'gap'])
     k = rng.randint(1, max(1, length // 3))
     if layout in ('left', 'both'):
         cells[:k] = ['u'] * k
@@ -180,17 +180,63 @@ def gen_tokens(rng, ids):
     return t
 
 
-def gen_request(rng, idx, n_oms, n_min, n_max, gb, widen, odd=None):
-    spacing = rng.choice([50, 50, 50, 37.5, 75, 25, 12.5, 62.5, 43, 100, 50])
+class Sim:
+    """rough occupancy bookkeeping of the generator (not the monitor's ledger): lets the generator aim at free or at
+    just-occupied positions so that accepted, blocked and adjacent placements all occur often"""
+
+    def __init__(self, oms, n_min, n_max, g4):
+        self.n_min, self.n_max, self.g4 = n_min, n_max, g4
+        self.cells = [list(o['cells']) if o['cells'] is not None else ['1'] * (n_max - n_min + 1) for o in oms]
+
+    def free(self, ids, n, m):
+        lo, hi = n - m, n + m - 1
+        if lo < self.n_min + max(self.g4, 1) or hi > self.n_max - self.g4:
+            return False
+        return all(0 <= x - self.n_min < len(self.cells[k]) and self.cells[k][x - self.n_min] == '1'
+                   for k in ids if k < len(self.cells) for x in range(lo, hi + 1))
+
+    def centres(self, ids, m):
+        return [n for n in range(self.n_min + m, self.n_max - m + 2) if self.free(ids, n, m)]
+
+    def mark(self, ids, n, m):
+        for k in ids:
+            if k < len(self.cells):
+                for x in range(n - m, n + m):
+                    if 0 <= x - self.n_min < len(self.cells[k]):
+                        self.cells[k][x - self.n_min] = '0'
+
+    def play(self, ids, slots, pcm, required):
+        """naive replay of a request (no ordering subtleties): good enough to steer the generator"""
+        todo = []
+        for n, m in slots:
+            mm = m if m is not None else (pcm if n is not None else max(pcm, required))
+            if mm is None or mm < 1:
+                return
+            if n is None:
+                c = self.centres(ids, mm)
+                if not c:
+                    return
+                n = c[0]
+            if not self.free(ids, n, mm):
+                return
+            todo.append((n, mm))
+        for n, mm in todo:
+            self.mark(ids, n, mm)
+
+
+def gen_request(rng, idx, n_oms, n_min, n_max, gb, widen, odd=None, sim=None):
+    small = (n_max - n_min) < 70          # keep the demand in proportion to the map
+    spacing = rng.choice([50, 25, 37.5, 25, 12.5, 50, 43] if small else [50, 50, 50, 37.5, 75, 25, 12.5, 62.5, 43, 100, 50])
     spacing = int(spacing * 10 ** 9)
     bit_rate = rng.choice([100, 100, 200, 400]) * 10 ** 9
-    nb_wl = rng.choice([1, 1, 1, 1, 2, 2, 3, 4])
+    nb_wl = rng.choice([1, 1, 1, 1, 1, 2] if small else [1, 1, 1, 1, 2, 2, 3, 4])
     bw = nb_wl * bit_rate - rng.choice([0, 0, 0, 10 * 10 ** 9])
     pcm = cdiv(spacing, SLOT)
     required = pcm * cdiv(bw, bit_rate)
     k = min(n_oms, rng.choice([1, 1, 2, 2, 3, 4, 5]))
     ids = rng.sample(range(n_oms), k)
     pth = gen_tokens(rng, ids)
+    rids = []
     if rng.random() < 0.45:
         rids = [(i ^ 1) if (i ^ 1) < n_oms else i for i in reversed(ids)]   # opposite direction = partner OMS
         rpth = gen_tokens(rng, rids)
@@ -203,6 +249,10 @@ def gen_request(rng, idx, n_oms, n_min, n_max, gb, widen, odd=None):
         return max(1, m)
 
     def pick_n(m=None):
+        if sim is not None and rng.random() < 0.5:
+            c = sim.centres(ids + (rids if rpth else []), m or pcm)
+            if c:
+                return rng.choice([c[0], c[0], c[-1], rng.choice(c), rng.choice(c)])
         r = rng.random()
         if r < 0.03:
             return rng.choice([n_min - rng.randint(1, 12), n_max + rng.randint(1, 12)])   # outside the slot grid
@@ -242,6 +292,8 @@ def gen_request(rng, idx, n_oms, n_min, n_max, gb, widen, odd=None):
             slots.append({'nn': [None, None], 'nm': [None, m], 'NM': [pick_n(m), m], 'Nn': [pick_n(), None]}[s])
     rq = {'id': f'r{idx}', 'slots': [{'N': n, 'M': m} for n, m in slots], 'path_bandwidth': bw, 'bit_rate': bit_rate,
           'spacing': spacing, 'pth': pth, 'rpth': rpth, 'pre_blocked': rng.random() < 0.03}
+    if sim is not None and not rq['pre_blocked']:
+        sim.play(ids + rids, slots, pcm, required)
     if odd == 'zero_rate':
         rq['bit_rate'] = 0
     elif odd == 'empty_path':
@@ -259,8 +311,11 @@ def gen_history(rng, tier, widen):
     length = n_max - n_min + 1
     n_oms = rng.choice([1, 2, 2, 3, 4, 4, 5, 6, 8])
     dense = rng.random() < 0.3
+    # half of the networks have one band layout on most OMS (otherwise the common free zone of long routes is tiny)
+    common = rng.choice(['full', 'full', 'left', 'right', 'gap']) if rng.random() < 0.55 else None
     oms = [{'f_min': f_min, 'f_max': f_max, 'guardband': gb, 'grid': GRID,
-            'cells': None if rng.random() < 0.15 else gen_cells(rng, length, dense)} for _ in range(n_oms)]
+            'cells': None if rng.random() < 0.15 else
+            gen_cells(rng, length, dense, common if rng.random() < 0.8 else None)} for _ in range(n_oms)]
     odd = None
     if rng.random() < 0.12:
         odd = rng.choice(['bad_len', 'unaligned', 'zero_rate', 'empty_path', 'bad_path', 'policy', 'no_slots'])
@@ -277,9 +332,11 @@ def gen_history(rng, tier, widen):
         hist = max(hist, 6)
     reqs = []
     odd_at = rng.randrange(hist)
+    sim = Sim(oms, n_min, n_max, gb // GRID) if odd not in ('bad_len', 'unaligned') else None
     for i in range(hist):
         reqs.append(gen_request(rng, i, n_oms, n_min, n_max, gb, widen,
-                                odd if (i == odd_at and odd in ('zero_rate', 'empty_path', 'bad_path', 'no_slots')) else None))
+                                odd if (i == odd_at and odd in ('zero_rate', 'empty_path', 'bad_path', 'no_slots')) else None,
+                                sim))
     pol = 'first_fit' if rng.random() < 0.75 else 'last_fit'
     if odd == 'policy':
         pol = '2partition'
